@@ -24,6 +24,7 @@ func init() {
 			lines := []string{
 				"takes [1]+[2]", "takes [0]*3", "takes ([1 2])", "takes [1 2][:1]", "takesm {a:1}", "vari [1]+[2] [3]*2", "vari [1] [2]+[3] ([4])",
 				"print [[1]+[2] [\"a\"]]", "print {a:[1]+[2] b:[\"x\"]}", "z = [1]+[2]", "z = [[1]+[2] [3]][0]", "w = [[]]+[[1]]", "w = [[1]+[2]]*2",
+				"print \"\\xff\" \"caf\\xe9\" (\"\\xf0\\x9f\"+\"\\x98\\x80\") \"a\\x80b\"", "print \"\\u200d\" \"\\t\\n\\\\\" \"\\U0001F600\" \"\\x00\\x7f\"",
 				"print [1]+[2] [3]*2 -1", "print [[1]*2 [\"s\"]+[\"t\"]] {k:[true]+[false] l:[1]}", "print z w",
 			}
 			r.Shuffle(len(lines), func(a, b int) { lines[a], lines[b] = lines[b], lines[a] })
